@@ -174,11 +174,43 @@ def run(ck: Check):
     runs, kinds = gen_runs(n_index)
     runs.append({"warm": [], "threads": stress_threads2, "schedule": []})
     kinds["witness"] += 1
+    # ---- forced yield points on EVERY line of the XmlMeta / XmlVar methods (models/elements.py), no model of
+    #      those lines: lazily built per-metadata state (memos, sorted field lists ...) must never be observed
+    #      half-built; oracle = the solo result; thread sets are ns-closed by construction (checked by the model
+    #      on a sequential run of the same set)
+    free_ops = ["ser:WildMid", "parse:WildMid", "parse:WildO-other", "parse:WildT-a", "ser:Wild", "parse:Wild", "ser:PA",
+                "parse:PA", "parse-auto:PA", "ser:Holder", "parse:Holder", "jser:PA", "dec-auto:x", "ser:PC"]
+    free_sets = [[by_tag[t]] * n for t in free_ops if t in by_tag for n in (2, 3)]
+    free_sets += [[by_tag[a], by_tag[b]] for a, b in (("ser:WildMid", "parse:WildMid"), ("ser:PA", "parse:PA"),
+                                                      ("ser:Holder", "parse:Holder"))]
+    free_runs, free_guard_case = [], {}
+    for fs in free_sets:
+        for warm in ([], [by_tag["find_type:Leaf"]]):
+            free_guard_case[(tuple(warm), tuple(fs))] = len(runs)
+            runs.append({"warm": warm, "threads": fs, "schedule": []})
+            for _ in range(ck.n(3, 60)):
+                free_runs.append({"warm": warm, "threads": fs, "seed": r.randrange(1 << 30)})
+    kinds["free-line"] = len(free_runs)
+    # systematic two-thread exploration restricted to the self-mutating methods of XmlMeta / XmlVar
+    sys_pairs = [("parse:WildO-other", "parse:WildO-local"), ("parse:WildO-other", "parse:WildO-other"),
+                 ("parse:WildT-a", "parse:WildT-z"), ("parse:WildMid", "parse:WildMid"), ("ser:WildMid", "ser:WildMid"),
+                 ("ser:WildMid", "parse:WildMid"), ("parse:Wild", "parse:Wild"), ("ser:PA", "ser:PA"), ("parse:PA", "ser:PA"),
+                 ("ser:Holder", "ser:Holder"), ("jser:PA", "jser:PA")]
+    sys_runs = []
+    for a, b in sys_pairs:
+        if a in by_tag and b in by_tag:
+            fs = [by_tag[a], by_tag[b]]
+            for warm in ([], [by_tag["find_type:Leaf"]]):
+                if (tuple(warm), tuple(fs)) not in free_guard_case:
+                    free_guard_case[(tuple(warm), tuple(fs))] = len(runs)
+                    runs.append({"warm": warm, "threads": fs, "schedule": []})
+                sys_runs.append({"warm": warm, "threads": fs, "seed": r.randrange(1 << 30), "max": ck.n(60, 1500)})
+    kinds["systematic-sets"] = len(sys_runs)
     nproc = ck.n(4, 12)
     chunks = [runs[i::nproc] for i in range(nproc)]
     import concurrent.futures as cf
     with cf.ThreadPoolExecutor(max_workers=nproc) as ex:
-        outs = list(ex.map(lambda a: run_impl("impl_c19.py", dict(payload, runs=a[1],
+        outs = list(ex.map(lambda a: run_impl("impl_c19.py", dict(payload, runs=a[1], free_runs=free_runs[a[0]::nproc], sys_runs=sys_runs[a[0]::nproc],
                                                                  stress={"rounds": ck.n(40, 2000), "threads": stress_sets[a[0]],
                                                                          "warm": [by_tag["find_type:Leaf"]]}
                                                                  if a[0] < 2 else None), timeout=2400),
@@ -187,6 +219,14 @@ def run(ck: Check):
     for k, o in enumerate(outs):
         for j, rr in enumerate(o["runs"]):
             res_runs[k + j * nproc] = rr
+    free_res = [None] * len(free_runs)
+    for k, o in enumerate(outs):
+        for j, rr in enumerate(o["free"]):
+            free_res[k + j * nproc] = rr
+    sys_res = [None] * len(sys_runs)
+    for k, o in enumerate(outs):
+        for j, rr in enumerate(o["systematic"]):
+            sys_res[k + j * nproc] = rr
     order, ambient = outs[0]["order"], {a["cid"]: a for a in outs[0]["ambient"]}
 
     # ---- Gallina
@@ -246,6 +286,47 @@ def run(ck: Check):
                        replay(i))
         if s & 32:
             stats["cold"] += 1
+    # forced yield points on every line of models/elements.py
+    pos = {i: k for k, i in enumerate(idx)}
+    stats["free_runs"], stats["free_steps"], stats["free_mismatch_outside_guard"] = len(free_runs), 0, 0
+    for fr, out in zip(free_runs, free_res):
+        what = f"threads {[ops[t]['tag'] for t in fr['threads']]} after {[ops[t]['tag'] for t in fr['warm']]} (seed {fr['seed']})"
+        if out["status"] != "ok":
+            ck.failure("scheduler-timeout", "a forced-yield run did not terminate: " + out["status"] + " " + what, {"run": fr})
+            continue
+        stats["free_steps"] += out["steps"]
+        if out["results"] != out["solo"]:
+            gi = free_guard_case[(tuple(fr["warm"]), tuple(fr["threads"]))]
+            if gi in pos and summ[pos[gi]] & 16:
+                bad = [k for k, (a, b) in enumerate(zip(out["results"], out["solo"])) if a != b][0]
+                ck.failure("concurrent-difference-inside-guard",
+                           "forced yield points on every line of XmlMeta/XmlVar (models/elements.py): a thread's result differs "
+                           f"from its solo run: {what}: {out['results'][bad]} vs {out['solo'][bad]}",
+                           {"run": {"warm": [ops[t]["tag"] for t in fr["warm"]], "threads": [ops[t]["tag"] for t in fr["threads"]],
+                                    "seed": fr["seed"]}, "results": out["results"], "solo": out["solo"]})
+            else:
+                stats["free_mismatch_outside_guard"] += 1
+                ck.notes.append("free-line mismatch outside the guard: " + what)
+    # systematic exploration of the self-mutating methods of XmlMeta / XmlVar
+    stats["systematic_schedules"] = 0
+    stats["mutating_methods"] = outs[0].get("mutators")
+    for sr, out in zip(sys_runs, sys_res):
+        what = f"threads {[ops[t]['tag'] for t in sr['threads']]} after {[ops[t]['tag'] for t in sr['warm']]}"
+        if out["status"] != "ok":
+            ck.failure("scheduler-timeout", "a systematic run did not terminate: " + out["status"] + " " + what, {"run": sr})
+            continue
+        stats["systematic_schedules"] += out["explored"]
+        if out["bad"]:
+            gi = free_guard_case[(tuple(sr["warm"]), tuple(sr["threads"]))]
+            if gi in pos and summ[pos[gi]] & 16:
+                b0 = out["bad"][0]
+                ck.failure("concurrent-difference-inside-guard",
+                           "yield points inside the self-mutating methods of XmlMeta/XmlVar (lazily built metadata observed "
+                           f"half-built): {what}, schedule {b0['schedule']}: {b0['results']} vs solo {out['solo']}",
+                           {"run": {"warm": [ops[t]["tag"] for t in sr["warm"]], "threads": [ops[t]["tag"] for t in sr["threads"]]},
+                            "bad": out["bad"], "solo": out["solo"], "mutating_methods": outs[0].get("mutators")})
+            else:
+                ck.notes.append("systematic mismatch outside the guard: " + what)
     # un-forced stress: thread sets inside the guard, so any mismatch is a violation
     for which, st in enumerate([outs[0]["stress"], outs[1]["stress"] if len(outs) > 1 else None]):
         if not st:
